@@ -14,12 +14,15 @@ RULE = ("scenario = a condition generated from the grammar (&&/|| nesting to dep
         "LatencyAtQuantileMS, int and float literals in several spellings, redundant parentheses), printed in Go syntax for the real predicate "
         "parser and in prefix form for the model; 8% ill-typed and 5% otherwise rejected conditions (New must fail on both sides); response "
         "code / latency sequences with clock advances, check periods 0..10 s, completions overlapping a trip, 1-4 trip/recover cycles, "
-        "OnTripped/OnStandby executions counted after quiescence; non-trivial = evaluations with both outcomes in one scenario. "
+        "OnTripped/OnStandby executions counted after quiescence; 15% latency cycles (slow responses over >= 3 ten-second histogram slots, trip, full cycle with fast responses, evaluations inside the 60 s rolling window); non-trivial = evaluations with both outcomes in one scenario. "
         "Float: ratios are exact integer pairs; literals have <= 3 decimals and counts stay < 10^4, so a ratio either equals the literal "
         "(float division and literal round identically: ratio-tie) or differs by > 2^-40 relative (ratio-too-close must be 0)")
-ASSUMPTIONS = ["LatencyAtQuantileMS is an oracle: the value is read from a shadow memmetrics.RTMetrics fed the same (code, latency) at the same "
-               "frozen instants and reset at every observed trip (hdrhistogram and the rolling histogram are not modelled); the harness "
-               "re-checks the value on the op line on every run",
+ASSUMPTIONS = ["LatencyAtQuantileMS is an oracle for the model: the value is read from a shadow memmetrics.RTMetrics fed the same (code, latency) at the "
+               "same frozen instants and reset at every observed trip; the harness re-checks the value on the op line on every run. The monitor "
+               "does not trust it: from the raw (time, latency) log it re-derives the latencies recorded since the last trip that are still in the "
+               "rolling histogram (6 sub-histograms, rolled at the first record >= 10 s after the previous roll), the order statistic "
+               "int(q/100*n+0.5) and its hdrhistogram bucket (2 significant figures), judges trip decisions with that value and flags "
+               "stale-latency when the value a decision used lies outside the bucket",
                "C18_window composes the breaker with the C17 counter invariant (Proofs/Counter: RCnt.Inv, count_exact) for clock readings "
                "after 1970-01-01 + 10 s; the monitor recomputes the same window from the raw log independently",
                "float64 rounding of ratios is not modelled (see RULE); time stamps never decrease; atomic steps (C09)"]
